@@ -202,7 +202,14 @@ func (c *c16Client) GetRawEntries(ctx context.Context, start, end int64) (*ct.Ge
 		return fail(status.Error(codes.Unavailable, "verif: back end down"))
 	}
 	if int((h>>8)%100) < c.p.errPct && c.errRun[key] < 3 {
-		switch (h >> 16) % 6 {
+		switch (h >> 16) % 9 {
+		case 6:
+			// a lagging front end refuses, once, a request that lies inside the STH another front end served ("need tree size 8, only got 4")
+			return fail(jsonclient.RspError{Err: errors.New("verif: 400 need bigger tree"), StatusCode: http.StatusBadRequest})
+		case 7:
+			return fail(jsonclient.RspError{Err: errors.New("verif: 404"), StatusCode: http.StatusNotFound})
+		case 8:
+			return fail(jsonclient.RspError{Err: errors.New("verif: 416"), StatusCode: http.StatusRequestedRangeNotSatisfiable})
 		case 0:
 			return fail(jsonclient.RspError{Err: errors.New("verif: 429"), StatusCode: http.StatusTooManyRequests})
 		case 1:
